@@ -177,7 +177,14 @@ pub fn expect_tree(spec: &str) -> String {
     for ent in spec.split(';').filter(|e| !e.is_empty()) {
         let f: Vec<&str> = ent.split(':').collect();
         let (name, mask, extra) = (f[0], f[1].parse::<u32>().unwrap_or(0), f[2].parse::<usize>().unwrap_or(99));
-        if mask & 8 != 0 || mask & 7 != 7 {
+        if mask & 8 != 0 {
+            continue;
+        }
+        // the files present: the mandatory ones selected by the mask, plus the extra one (which may itself be a mandatory file)
+        let has = |i: usize| -> bool {
+            i == extra || match META_NAMES[i] { "+COMMENT" => mask & 1 != 0, "+CONTENTS" => mask & 2 != 0, "+DESC" => mask & 4 != 0, _ => false }
+        };
+        if !(has(2) && has(3) && has(5)) {
             continue;
         }
         let (b, v) = match name.rfind('-') {
@@ -186,8 +193,8 @@ pub fn expect_tree(spec: &str) -> String {
         };
         let mut files = vec![];
         for (i, m) in META_NAMES.iter().enumerate() {
-            let present = matches!(*m, "+COMMENT" | "+CONTENTS" | "+DESC") || i == extra;
-            files.push(if present { format!("{}/{}\n", name, m) } else { "<err>".to_string() });
+            let _ = m;
+            files.push(if has(i) { format!("{}/{}\n", name, m) } else { "<err>".to_string() });
         }
         out.push(format!("{}|{}|{}|{}", name, b, v, files.join(",")));
     }
